@@ -42,7 +42,27 @@
 //!     (base16, "-" = empty) and `OwnerHash` (base32hex), both limited to
 //!     255 octets: every class string up to length 6/8 and every octet
 //!     length 0..=300 x 3 patterns through FromStr, scan, serde Deserialize,
-//!     from_octets, Display, serde Serialize (see `check_form_text`).
+//!     from_octets, Display, serde Serialize (see `check_form_text`);
+//!   * the FRONT ENDS that feed the converters when presentation format is
+//!     read (see `check_front_text`): every record field that is Base 16 /
+//!     Base 32 hex / Base 64 text - NSEC3 / NSEC3PARAM salt, NSEC3 next
+//!     hashed owner, DS / CDS / ZONEMD / TLSA / SSHFP digests, DNSKEY /
+//!     CDNSKEY / RRSIG / OPENPGPKEY / IPSECKEY keys and signatures, RFC 3597
+//!     `\# len hex` (unknown and known type), the SVCB / HTTPS `ech=` value
+//!     (plain and quoted) - written into a COMPLETE RECORD LINE and read by
+//!     (R0) the zone-file reader `zonefile::inplace::Zonefile`, (R1)
+//!     `ZoneRecordData::scan` / `UnknownRecordData::scan` over an
+//!     `IterScanner`, (R2) `Ech::value_from_scan_octets` called directly.
+//!     Texts: the reference encoding of every octet string of length 0..=12
+//!     (thorough 0..=40) x fill patterns, and every class string (malformed
+//!     families: incomplete final group, stray / short padding, illegal
+//!     symbol, odd number of hex digits) up to a length bound; every split
+//!     of the text into <= 2 (3) tokens where the format allows several;
+//!     layouts {one line, parenthesised over several lines with comments} x
+//!     {only entry of the file, between two other records}. Oracle: the
+//!     record's wire-format RDATA written out from the RFCs with the
+//!     reference decoding in the field; malformed text must make the reader
+//!     fail; the records around it must be read unharmed.
 //!
 //! Oracle: an independent, table-driven RFC 4648 codec written below
 //! (`Spec::encode`, `Spec::decode`). Well-formedness follows the variant the
@@ -55,9 +75,16 @@
 //! ("This module currently only implements base32hex"), so there is nothing
 //! to run for it.
 
+use domain::base::iana::{Rtype, SvcParamKey};
+use domain::base::name::{Name, ToName};
+use domain::base::rdata::{ComposeRecordData, UnknownRecordData};
 use domain::base::scan::{
     ConvertSymbols, EntrySymbol, IterScanner, Scanner, StrError, Symbol,
 };
+use domain::rdata::svcb::value::Ech;
+use domain::rdata::svcb::ScanSvcParamValue;
+use domain::rdata::ZoneRecordData;
+use domain::zonefile::inplace::{Entry, Zonefile};
 use domain::utils::base64::DecodeError;
 use domain::rdata::nsec3::{Nsec3Salt, OwnerHash};
 use domain::utils::{base16, base32, base64};
@@ -529,6 +556,14 @@ const COUNTER_NAMES: &[&str] = &[
     "nsec3_accepts",                                 // 40
     "nsec3_rejects",                                 // 41
     "nsec3_texts_longer_than_255_octets",            // 42
+    "front_end_texts",                               // 43
+    "front_end_zonefile_reads",                      // 44
+    "front_end_iterscanner_record_scans",            // 45
+    "front_end_ech_direct_calls",                    // 46
+    "front_end_accepts",                             // 47
+    "front_end_rejects",                             // 48
+    "front_end_neighbour_record_checks",             // 49
+    "front_end_token_layouts",                       // 50
 ];
 const C_TEXTS: usize = 0;
 const C_REF0: usize = 1;
@@ -568,7 +603,15 @@ const C_N3_CALLS: usize = 39;
 const C_N3_ACC: usize = 40;
 const C_N3_REJ: usize = 41;
 const C_N3_LONG: usize = 42;
-const NC: usize = 43;
+const C_FE_TEXTS: usize = 43;
+const C_FE_ZONEFILE: usize = 44;
+const C_FE_ITER: usize = 45;
+const C_FE_ECH: usize = 46;
+const C_FE_ACC: usize = 47;
+const C_FE_REJ: usize = 48;
+const C_FE_NEIGHBOUR: usize = 49;
+const C_FE_LAYOUTS: usize = 50;
+const NC: usize = 51;
 
 const REF_ROWS: [&str; 6] = [
     "wellformed-canonical",
@@ -1810,12 +1853,553 @@ fn run_escaped<S: Subject>(agg: &Agg, wd: &Watchdog, classes: &[char], max_len: 
     total
 }
 
+
+// ===================================================================
+// Front ends: the codecs as fields of complete records, read by the real
+// presentation-format readers
+// ===================================================================
+
+/// One record field whose presentation format is Base 16 / 32 hex / 64 text.
+///
+/// The record line is `<owner> 3600 IN <rtype> <pre><tokens><post>`; the
+/// expected wire-format RDATA is `wire_pre ++ length ++ octets ++ wire_post`
+/// (layouts from RFC 4034 2.1/3.1/5.1, RFC 5155 3.2/4.2, RFC 6698 2.1,
+/// RFC 4255 3.1, RFC 8976 2.2, RFC 7929 2.1, RFC 4025 2.1, RFC 7344,
+/// RFC 3597 5, RFC 9460 2.2).
+#[derive(Clone, Copy)]
+struct Field {
+    name: &'static str,
+    /// 0 = base64, 1 = base32hex, 2 = base16
+    codec: usize,
+    rtype: &'static str,
+    pre: &'static str,
+    post: &'static str,
+    /// glued to the first / last token (`ech=`, quotes)
+    tok_prefix: &'static str,
+    tok_suffix: &'static str,
+    /// may the text be spread over several tokens
+    multi: bool,
+    /// RFC 3597 form: `pre` is `\# <number of octets> `
+    generic: bool,
+    /// RFC 5155 3.3: "-" is the empty salt
+    dash_is_empty: bool,
+    /// SvcParam value (no IterScanner record route; direct value scan instead)
+    svcparam: bool,
+    wire_pre: &'static [u8],
+    /// width of the length field in front of the octets (0, 1 or 2 octets)
+    len_width: usize,
+    wire_post: &'static [u8],
+    max_octets: usize,
+}
+
+const fn fld(name: &'static str, codec: usize, rtype: &'static str, pre: &'static str, wire_pre: &'static [u8]) -> Field {
+    Field {
+        name, codec, rtype, pre, post: "", tok_prefix: "", tok_suffix: "", multi: true, generic: false,
+        dash_is_empty: false, svcparam: false, wire_pre, len_width: 0, wire_post: &[], max_octets: 60000,
+    }
+}
+
+/// example.com. in wire format
+const RRSIG_WIRE_PRE: &[u8] = &[
+    0, 1, 8, 2, 0, 0, 0x0E, 0x10, // A, alg 8, 2 labels, original TTL 3600
+    0x65, 0x92, 0x00, 0x80, // 2024-01-01T00:00:00Z = 1704067200
+    0x63, 0xB0, 0xCD, 0x00, // 2023-01-01T00:00:00Z = 1672531200
+    0x30, 0x39, // key tag 12345
+    7, b'e', b'x', b'a', b'm', b'p', b'l', b'e', 3, b'c', b'o', b'm', 0,
+];
+/// type bit map holding just A
+const BITMAP_A: &[u8] = &[0, 1, 0x40];
+const NSEC3_AFTER_SALT: &[u8] = &[5, b'f', b'o', b'o', b'b', b'a', 0, 1, 0x40];
+
+static FIELDS: [Field; 19] = [
+    // ---- base64, any number of tokens
+    fld("DNSKEY.public_key", 0, "DNSKEY", "256 3 8 ", &[1, 0, 3, 8]),
+    fld("CDNSKEY.public_key", 0, "CDNSKEY", "257 3 13 ", &[1, 1, 3, 13]),
+    fld("RRSIG.signature", 0, "RRSIG", "A 8 2 3600 20240101000000 20230101000000 12345 example.com. ", RRSIG_WIRE_PRE),
+    fld("OPENPGPKEY.key", 0, "OPENPGPKEY", "", &[]),
+    fld("IPSECKEY.public_key", 0, "IPSECKEY", "10 0 2 . ", &[10, 0, 2]),
+    // ---- base64, SvcParam value driven by hand
+    Field { multi: false, svcparam: true, tok_prefix: "ech=", len_width: 2, ..fld("SVCB.ech", 0, "SVCB", "1 . ", &[0, 1, 0, 0, 5]) },
+    Field { multi: false, svcparam: true, tok_prefix: "ech=\"", tok_suffix: "\"", len_width: 2, ..fld("HTTPS.ech(quoted)", 0, "HTTPS", "1 . ", &[0, 1, 0, 0, 5]) },
+    // ---- base32hex, one token
+    Field { multi: false, post: " A", len_width: 1, wire_post: BITMAP_A, max_octets: 255, ..fld("NSEC3.next_owner", 1, "NSEC3", "1 0 10 AABB ", &[1, 0, 0, 10, 2, 0xAA, 0xBB]) },
+    // ---- base16, one token
+    Field { multi: false, dash_is_empty: true, post: " CPNMUOJ1 A", len_width: 1, wire_post: NSEC3_AFTER_SALT, max_octets: 255, ..fld("NSEC3.salt", 2, "NSEC3", "1 0 10 ", &[1, 0, 0, 10]) },
+    Field { multi: false, dash_is_empty: true, len_width: 1, max_octets: 255, ..fld("NSEC3PARAM.salt", 2, "NSEC3PARAM", "1 0 10 ", &[1, 0, 0, 10]) },
+    // ---- base16, any number of tokens
+    fld("DS.digest", 2, "DS", "12345 8 2 ", &[0x30, 0x39, 8, 2]),
+    fld("CDS.digest", 2, "CDS", "12345 13 4 ", &[0x30, 0x39, 13, 4]),
+    fld("ZONEMD.digest", 2, "ZONEMD", "2018031500 1 1 ", &[0x78, 0x48, 0xB7, 0x8C, 1, 1]),
+    fld("TLSA.data", 2, "TLSA", "3 1 1 ", &[3, 1, 1]),
+    fld("SSHFP.fingerprint", 2, "SSHFP", "4 2 ", &[4, 2]),
+    Field { generic: true, ..fld("TYPE65280.generic(rfc3597)", 2, "TYPE65280", "", &[]) },
+    Field { generic: true, ..fld("TXT.generic(rfc3597)", 2, "TXT", "", &[]) },
+    Field { generic: true, ..fld("DS.generic(rfc3597)", 2, "DS", "", &[]) },
+    Field { generic: true, ..fld("NSEC3.generic(rfc3597)", 2, "NSEC3", "", &[]) },
+];
+
+fn codec_spec(codec: usize) -> &'static Spec {
+    [&B64, &B32H, &B16][codec]
+}
+
+fn codec_name(codec: usize) -> &'static str {
+    ["base64", "base32hex", "base16"][codec]
+}
+
+impl Field {
+    fn kind(&self) -> &'static str {
+        if self.svcparam {
+            "svcparam-value"
+        } else if self.generic {
+            "rfc3597-data"
+        } else if self.multi {
+            "multi-token-field"
+        } else {
+            "single-token-field"
+        }
+    }
+
+    fn wire(&self, octets: &[u8]) -> Vec<u8> {
+        let mut v = self.wire_pre.to_vec();
+        match self.len_width {
+            1 => v.push(octets.len() as u8),
+            2 => v.extend_from_slice(&(octets.len() as u16).to_be_bytes()),
+            _ => {}
+        }
+        v.extend_from_slice(octets);
+        v.extend_from_slice(self.wire_post);
+        v
+    }
+
+    /// The presentation tokens of the field: the text cut after character
+    /// `i` and `j` (values >= the length mean: no cut).
+    fn tokens(&self, chars: &[char], i: usize, j: usize) -> Vec<String> {
+        let n = chars.len();
+        let (i, j) = (i.min(n), j.min(n));
+        let mut t: Vec<String> = Vec::new();
+        for (x, y) in [(0, i), (i, j), (j, n)] {
+            if y > x {
+                t.push(chars[x..y].iter().collect());
+            }
+        }
+        if t.is_empty() && !self.tok_prefix.is_empty() {
+            t.push(String::new());
+        }
+        if let Some(f) = t.first_mut() {
+            f.insert_str(0, self.tok_prefix);
+        }
+        if let Some(l) = t.last_mut() {
+            l.push_str(self.tok_suffix);
+        }
+        t
+    }
+
+    fn pre(&self, declared: usize) -> String {
+        if self.generic {
+            format!("\\# {} ", declared)
+        } else {
+            self.pre.to_string()
+        }
+    }
+}
+
+const FE_OWNER_WIRE: &[u8] = &[1, b'x', 7, b'e', b'x', b'a', b'm', b'p', b'l', b'e', 3, b'c', b'o', b'm', 0];
+const FE_LAST_WIRE: &[u8] = &[4, b'l', b'a', b's', b't', 7, b'e', b'x', b'a', b'm', b'p', b'l', b'e', 3, b'c', b'o', b'm', 0];
+const FE_FIRST_WIRE: &[u8] = &[5, b'f', b'i', b'r', b's', b't', 7, b'e', b'x', b'a', b'm', b'p', b'l', b'e', 3, b'c', b'o', b'm', 0];
+
+/// The zone file holding the record. `pos` 0: the only entry; 1: after
+/// `$ORIGIN`, `$TTL` and a record, and followed by another record.
+/// `layout` 0: one line, tokens separated by one space; 1: the field's tokens
+/// in parentheses, one per line, each followed by a comment.
+fn fe_zone_text(f: &Field, declared: usize, tokens: &[String], pos: u8, layout: u8) -> String {
+    let mut s = String::new();
+    if pos == 1 {
+        s.push_str("$ORIGIN example.com.\n$TTL 300\nfirst 3600 IN A 192.0.2.1\n");
+    }
+    s.push_str("x.example.com. 3600 IN ");
+    s.push_str(f.rtype);
+    s.push(' ');
+    s.push_str(&f.pre(declared));
+    if layout == 0 {
+        s.push_str(&tokens.join(" "));
+    } else {
+        s.push_str("(\n");
+        for t in tokens {
+            s.push('\t');
+            s.push_str(t);
+            s.push_str(" ; c\n");
+        }
+        s.push(')');
+    }
+    s.push_str(f.post);
+    s.push('\n');
+    if pos == 1 {
+        s.push_str("last 7200 IN A 192.0.2.9\n");
+    }
+    s
+}
+
+struct FeRead {
+    /// the record under test: (rtype, wire RDATA) or that the reader failed
+    rec: Result<(u16, Vec<u8>), String>,
+    /// something wrong with the entries around it (only looked at if `rec` is Ok)
+    around: Option<String>,
+}
+
+fn fe_entry(zf: &mut Zonefile) -> Result<Option<(Vec<u8>, u16, Vec<u8>)>, String> {
+    match zf.next_entry() {
+        Err(e) => Err(e.to_string()),
+        Ok(None) => Ok(None),
+        Ok(Some(Entry::Record(r))) => {
+            let mut rd = Vec::new();
+            r.data().compose_rdata(&mut rd).map_err(|_| "compose_rdata failed".to_string())?;
+            Ok(Some((r.owner().to_vec().as_slice().to_vec(), r.rtype().to_int(), rd)))
+        }
+        Ok(Some(Entry::Include { .. })) => Err("an $INCLUDE entry".into()),
+    }
+}
+
+/// (R0) the zone-file reader
+fn fe_read_zonefile(zone: &str, pos: u8) -> FeRead {
+    let mut zf = Zonefile::from(zone);
+    let mut around: Option<String> = None;
+    if pos == 1 {
+        match fe_entry(&mut zf) {
+            Ok(Some((o, 1, rd))) if o == FE_FIRST_WIRE && rd == [192, 0, 2, 1] => {}
+            other => around = Some(format!("the record before it was read as {:?}", other)),
+        }
+    }
+    let rec = match fe_entry(&mut zf) {
+        Err(e) => Err(e),
+        Ok(None) => Err("no entry".into()),
+        Ok(Some((o, rt, rd))) => {
+            if o != FE_OWNER_WIRE && around.is_none() {
+                around = Some(format!("its owner was read as {}", hex(&o)));
+            }
+            Ok((rt, rd))
+        }
+    };
+    if rec.is_ok() {
+        if pos == 1 {
+            match fe_entry(&mut zf) {
+                Ok(Some((o, 1, rd))) if o == FE_LAST_WIRE && rd == [192, 0, 2, 9] => {}
+                other => {
+                    if around.is_none() {
+                        around = Some(format!("the record after it (last 7200 IN A 192.0.2.9) was read as {:?}", other));
+                    }
+                }
+            }
+        }
+        match fe_entry(&mut zf) {
+            Ok(None) => {}
+            other => {
+                if around.is_none() {
+                    around = Some(format!("after the last record the reader did not report the end of the file but {:?}", other));
+                }
+            }
+        }
+    }
+    FeRead { rec, around }
+}
+
+/// (R1) the record data scanned from a token iterator
+fn fe_read_iter(f: &Field, declared: usize, tokens: &[String]) -> Result<(u16, Vec<u8>), String> {
+    let rtype = <Rtype as std::str::FromStr>::from_str(f.rtype).map_err(|_| "MACHINERY rtype".to_string())?;
+    let pre = f.pre(declared);
+    let mut all: Vec<&str> = pre.split_whitespace().collect();
+    all.extend(tokens.iter().map(|t| t.as_str()));
+    all.extend(f.post.split_whitespace());
+    let mut sc = IterScanner::<_, Vec<u8>>::new(all.iter().copied());
+    let mut rd = Vec::new();
+    let rt = if f.generic {
+        let d = UnknownRecordData::<Vec<u8>>::scan(rtype, &mut sc).map_err(|e| e.to_string())?;
+        d.compose_rdata(&mut rd).map_err(|_| "compose_rdata failed".to_string())?;
+        d.rtype().to_int()
+    } else {
+        let d = ZoneRecordData::<Vec<u8>, Name<Vec<u8>>>::scan(rtype, &mut sc).map_err(|e| e.to_string())?;
+        d.compose_rdata(&mut rd).map_err(|_| "compose_rdata failed".to_string())?;
+        rtype.to_int()
+    };
+    if !sc.is_exhausted() {
+        return Err("tokens left over".into());
+    }
+    Ok((rt, rd))
+}
+
+/// (R2) the `ech` value scanner called directly
+fn fe_read_ech(text: &str) -> Result<Vec<u8>, String> {
+    let none: [&str; 0] = [];
+    let mut sc = IterScanner::<_, Vec<u8>>::new(none.iter().copied());
+    match <Ech<Vec<u8>> as ScanSvcParamValue<[u8], Vec<u8>>>::value_from_scan_octets(&mut sc, SvcParamKey::ECH, text.as_bytes()) {
+        Ok(Some(e)) => Ok(e.as_slice().to_vec()),
+        Ok(None) => Err("Ok(None)".into()),
+        Err(e) => Err(e.to_string()),
+    }
+}
+
+/// (position in the file, token layout) pairs
+const FE_VARIANTS_ALL: [(u8, u8); 4] = [(0, 0), (0, 1), (1, 0), (1, 1)];
+const FE_VARIANTS_TWO: [(u8, u8); 2] = [(0, 0), (1, 1)];
+
+/// One text in one field through every reader, token split and layout.
+///
+/// Oracle (from the property and the RFC record layouts, nothing of the
+/// library): not well-formed text (reference codec) -> the reader must fail;
+/// well-formed canonical text -> the record must be read and its wire RDATA
+/// must be the RFC layout with exactly the reference octets in the field;
+/// non-zero trailing bits (RFC 4648 3.5) and the empty text (whether a field
+/// may be empty is the record type's business, not the codec's) may be
+/// refused, but if taken must give the reference octets; RFC 3597 `\# 0`
+/// and the NSEC3 salt `-` are well-formed. The records before and after must
+/// be read unharmed and the reader must then report the end of the file.
+fn check_front_text(f: &Field, chars: &[char], max_tokens: u8, variants: &[(u8, u8)], l: &mut Local) {
+    let spec = codec_spec(f.codec);
+    let cname = codec_name(f.codec);
+    let n = chars.len();
+    let text: String = chars.iter().collect();
+    let mut ref_out = Vec::new();
+    let is_dash = f.dash_is_empty && text == "-";
+    let want = if is_dash {
+        Want::Must
+    } else {
+        match spec.decode(chars, &mut ref_out) {
+            Err(w) => Want::Reject(w.s()),
+            Ok(_) if ref_out.len() > f.max_octets => Want::Reject("too-long-for-the-field"),
+            Ok(_) if n == 0 => {
+                if f.generic {
+                    Want::Must
+                } else if !f.multi && f.tok_prefix.is_empty() {
+                    // a single-token field cannot be written with no text at all
+                    return;
+                } else {
+                    Want::Either
+                }
+            }
+            Ok(true) => Want::Either,
+            Ok(false) => Want::Must,
+        }
+    };
+    // RFC 3597: the declared length; for malformed text the number of whole
+    // octets its symbols would carry (what a truncating reader would produce)
+    let declared = match want {
+        Want::Reject(_) => chars.iter().filter(|c| spec.val(**c).is_some()).count() * spec.bits as usize / 8,
+        _ => ref_out.len(),
+    };
+    let expected = f.wire(&ref_out);
+    let want_rtype = <Rtype as std::str::FromStr>::from_str(f.rtype).map(|r| r.to_int()).unwrap_or(0);
+    l.c[C_FE_TEXTS] += 1;
+    if matches!(want, Want::Must) && !ref_out.is_empty() {
+        l.distinct.push(key("fe", f.name, text.as_bytes()));
+    }
+
+    let judge = |l: &mut Local, reader: &str, got: Result<Result<(u16, Vec<u8>), String>, String>, detail: &str, zone: &str| -> Option<bool> {
+        let replay = || json!({"section": "front-end", "codec": cname, "field": f.name, "text": text, "detail": detail, "reader": reader});
+        let shown = if zone.is_empty() { format!("{} {}", f.name, detail) } else { format!("{} {} - zone file {:?}", f.name, detail, zone) };
+        match got {
+            Err(msg) => {
+                l.violation(
+                    format!("C18|{}|front-end:{}:{}|panic|{}", cname, reader, f.kind(), panic_class(&msg)),
+                    n, &text, detail,
+                    || format!("{} reading {:?} in {} panicked: {}", reader, text, shown, msg),
+                    replay,
+                );
+                None
+            }
+            Ok(Err(e)) => {
+                l.c[C_FE_REJ] += 1;
+                if matches!(want, Want::Must) {
+                    l.violation(
+                        format!("C18|{}|front-end:{}:{}|wellformed-rejected|lib:Err", cname, reader, f.kind()),
+                        n, &text, detail,
+                        || format!("{} refused well-formed {} text {:?} (octets {}) in {}: {}", reader, cname, text, hex(&ref_out), shown, e),
+                        replay,
+                    );
+                }
+                Some(false)
+            }
+            Ok(Ok((rt, rd))) => {
+                l.c[C_FE_ACC] += 1;
+                if let Want::Reject(why) = want {
+                    l.violation(
+                        format!("C18|{}|front-end:{}:{}|malformed-accepted|ref:{}", cname, reader, f.kind(), why),
+                        n, &text, detail,
+                        || format!("{} accepted {:?}, which is not well-formed {} ({}), in {}: RDATA read {}", reader, text, cname, why, shown, hex(&rd)),
+                        replay,
+                    );
+                } else if rd != expected || rt != want_rtype {
+                    let rel = match rd.len().cmp(&expected.len()) {
+                        std::cmp::Ordering::Less => "shorter",
+                        std::cmp::Ordering::Equal => "same-length",
+                        std::cmp::Ordering::Greater => "longer",
+                    };
+                    l.violation(
+                        format!("C18|{}|front-end:{}:{}|accepted-with-wrong-octets|lib-rdata:{}", cname, reader, f.kind(), rel),
+                        n, &text, detail,
+                        || format!("{} read {} text {:?} in {} as type {} RDATA {} but the field holds the octets {}: expected type {} RDATA {}", reader, cname, text, shown, rt, hex(&rd), hex(&ref_out), want_rtype, hex(&expected)),
+                        replay,
+                    );
+                }
+                Some(true)
+            }
+        }
+    };
+
+    let mut cuts: Vec<(usize, usize)> = vec![(n, n)];
+    if f.multi {
+        if max_tokens >= 2 {
+            for i in 1..n {
+                cuts.push((i, n));
+            }
+        }
+        if max_tokens >= 3 {
+            for i in 1..n {
+                for j in i + 1..n {
+                    cuts.push((i, j));
+                }
+            }
+        }
+    }
+    for (i, j) in cuts {
+        let tokens = f.tokens(chars, i, j);
+        let split = SplitTag { i, j, n }.to_string();
+        l.c[C_FE_LAYOUTS] += 1;
+        let mut zone_verdict: Option<bool> = None;
+        for &(pos, layout) in variants {
+            let zone = fe_zone_text(f, declared, &tokens, pos, layout);
+            let detail = format!("{}{}{}", split, if pos == 1 { " between-records" } else { "" }, if layout == 1 { " parenthesised" } else { "" });
+            l.c[C_FE_ZONEFILE] += 1;
+            let r = guard(|| fe_read_zonefile(&zone, pos));
+            let (rec, around) = match r {
+                Err(m) => (Err(m), None),
+                Ok(fr) => (Ok(fr.rec), fr.around),
+            };
+            let v = judge(l, "zonefile::inplace", rec, detail.trim(), &zone);
+            if pos == 1 || v == Some(true) {
+                l.c[C_FE_NEIGHBOUR] += 1;
+            }
+            if let (Some(true), Some(a)) = (v, around) {
+                l.violation(
+                    format!("C18|{}|front-end:zonefile::inplace:{}|neighbouring-entry-misread|after-an-accepted-field", cname, f.kind()),
+                    n, &text, detail.trim(),
+                    || format!("zone file {:?}: the {} record was read, but {}", zone, f.name, a),
+                    || json!({"section": "front-end", "codec": cname, "field": f.name, "text": text, "detail": detail.trim(), "reader": "zonefile::inplace"}),
+                );
+            }
+            if (pos, layout) == (0, 0) {
+                zone_verdict = v;
+            }
+        }
+        if !f.svcparam {
+            l.c[C_FE_ITER] += 1;
+            let r = guard(|| fe_read_iter(f, declared, &tokens));
+            let v = judge(l, "IterScanner+RecordData::scan", r, &split, "");
+            // two front ends of one converter: where the oracle leaves a
+            // choice (non-zero trailing bits) they must make the same one
+            if let (Want::Either, true, Some(a), Some(b)) = (want, n > 0, zone_verdict, v) {
+                if a != b {
+                    l.violation(
+                        format!("C18|{}|front-end:zonefile::inplace:{}|disagrees-with-IterScanner|{}-vs-{}", cname, f.kind(), if a { "Ok" } else { "Err" }, if b { "Ok" } else { "Err" }),
+                        n, &text, &split,
+                        || format!("{} text {:?} in {} {}: the zone-file reader {} it, the IterScanner route {} it", cname, text, f.name, split, if a { "accepts" } else { "refuses" }, if b { "accepts" } else { "refuses" }),
+                        || json!({"section": "front-end", "codec": cname, "field": f.name, "text": text, "detail": split, "reader": "zonefile::inplace"}),
+                    );
+                }
+            }
+        }
+    }
+    if f.svcparam && f.tok_suffix.is_empty() {
+        l.c[C_FE_ECH] += 1;
+        let r = guard(|| fe_read_ech(&text)).map(|r| r.map(|v| (want_rtype, f.wire(&v))));
+        judge(l, "Ech::value_from_scan_octets", r, "", "");
+    }
+}
+
+fn fe_classes(codec: usize) -> Vec<Vec<char>> {
+    match codec {
+        // zero-bits symbol, non-zero symbols, '=', illegal ASCII, non-ASCII
+        0 => vec![vec!['A', 'B', '/', '=', '!', 'é']],
+        1 => vec![vec!['0', 'v', 'V', 'W', '='], vec!['0', 'V', 'W']],
+        // '-' is the empty NSEC3 salt when alone
+        _ => vec![vec!['0', 'f', 'F', 'g', '=', '-', 'é']],
+    }
+}
+
+/// Returns the coverage description.
+fn run_front_ends(agg: &Agg, wd: &Watchdog, quick: bool) -> Value {
+    // (A) the encode space: reference encodings of every length x pattern
+    let (max_octets, patterns) = if quick { (12usize, N_PATTERNS_ALL as usize) } else { (40usize, N_PATTERNS_BOUNDARY as usize) };
+    let per_field = (max_octets + 1) * patterns;
+    let total = (FIELDS.len() * per_field) as u64;
+    (0..total).into_par_iter().for_each(|k| {
+        wd.enter(|| json!({"codec": "front-end", "what": "front-end-encodings", "case": k}));
+        let f = &FIELDS[k as usize / per_field];
+        let r = k as usize % per_field;
+        let (len, p) = (r / patterns, r % patterns);
+        let mut l = Local::new();
+        if len > 0 || p == 0 {
+            let data = fill_pattern(p, len);
+            let text = if f.dash_is_empty && data.is_empty() { "-".to_string() } else { codec_spec(f.codec).encode(&data) };
+            let chars: Vec<char> = text.chars().collect();
+            // every 3-token split of short texts (quick) / of all texts (thorough)
+            let max_tokens = if !quick || chars.len() <= 12 { 3 } else { 2 };
+            check_front_text(f, &chars, max_tokens, &FE_VARIANTS_ALL, &mut l);
+        }
+        agg.merge(l);
+        wd.leave();
+    });
+    // (B) class strings: the malformed-text families in every field
+    let mut menus = Vec::new();
+    for codec in 0..3 {
+        for (mi, classes) in fe_classes(codec).into_iter().enumerate() {
+            let max_len = match (codec, mi, quick) {
+                (0, _, true) => 5,
+                (0, _, false) => 7,
+                (1, 0, true) => 6,
+                (1, 0, false) => 9,
+                (1, _, true) => 10,
+                (1, _, false) => 13,
+                (_, _, true) => 4,
+                (_, _, false) => 6,
+            };
+            let fields: Vec<&Field> = FIELDS.iter().filter(|f| f.codec == codec).collect();
+            let mut strings = 0u64;
+            for n in 0..=max_len {
+                let cnt = pow(classes.len(), n);
+                strings += cnt;
+                let nchunks = cnt.div_ceil(CHUNK);
+                (0..nchunks).into_par_iter().for_each(|ci| {
+                    wd.enter(|| json!({"codec": "front-end", "what": "front-end-class-strings", "chunk": ci}));
+                    let mut l = Local::new();
+                    let mut chars = Vec::with_capacity(n);
+                    for k in ci * CHUNK..((ci + 1) * CHUNK).min(cnt) {
+                        nth_string(&classes, n, k, &mut chars);
+                        for f in &fields {
+                            check_front_text(f, &chars, 2, &FE_VARIANTS_TWO, &mut l);
+                        }
+                    }
+                    agg.merge(l);
+                    wd.leave();
+                });
+            }
+            menus.push(json!({"codec": codec_name(codec), "classes": classes.iter().collect::<String>(), "max_len": max_len, "strings": strings, "fields": fields.len()}));
+        }
+    }
+    json!({
+        "fields": FIELDS.iter().map(|f| json!({"field": f.name, "codec": codec_name(f.codec), "kind": f.kind()})).collect::<Vec<_>>(),
+        "readers": ["zonefile::inplace::Zonefile (complete zone file)", "ZoneRecordData::scan / UnknownRecordData::scan over IterScanner (not for SvcParams: IterScanner has no scan_svcb_octets)", "Ech::value_from_scan_octets called directly"],
+        "encodings": format!("reference (harness) encoding of every octet length 0..={} x {} fill patterns per field; every split into <= 3 tokens (quick: <= 2 tokens for texts longer than 12 characters) for multi-token fields", max_octets, patterns),
+        "zone_file_variants": "encodings: {only entry, between two records} x {one line, parenthesised one token per line with comments}; class strings: only-entry/one-line and between-records/parenthesised",
+        "class_strings": menus,
+        "class_string_splits": "unsplit and every 2-token split for multi-token fields",
+    })
+}
+
 // ===================================================================
 // Enumeration drivers
 // ===================================================================
 
 const CHUNK: u64 = 4096;
-const EVAL_COUNTERS: [usize; 11] = [C_DECODE, C_PUSHSEQ, C_CONV_DIRECT, C_CONV_ENTRY, C_CONV_TOKEN, C_ENCODE, C_DECODE_OTHER, C_SERDE_DE, C_SERDE_SER, C_ESC_CALLS, C_N3_CALLS];
+const EVAL_COUNTERS: [usize; 14] = [C_DECODE, C_PUSHSEQ, C_CONV_DIRECT, C_CONV_ENTRY, C_CONV_TOKEN, C_ENCODE, C_DECODE_OTHER, C_SERDE_DE, C_SERDE_SER, C_ESC_CALLS, C_N3_CALLS, C_FE_ZONEFILE, C_FE_ITER, C_FE_ECH];
 
 fn run_indexed<S: Subject>(
     agg: &Agg,
@@ -2135,7 +2719,23 @@ fn main() {
         let case = body["case"].clone();
         let name = case["codec"].as_str().unwrap_or("").to_string();
         let mut l = Local::new();
-        if let Some(form) = case["form"].as_str() {
+        if case["section"].as_str() == Some("front-end") {
+            let fname = case["field"].as_str().unwrap_or("");
+            let Some(f) = FIELDS.iter().find(|f| f.name == fname) else {
+                eprintln!("MACHINERY: unknown field {fname:?} in replay file {path}");
+                std::process::exit(2);
+            };
+            let chars: Vec<char> = case["text"].as_str().unwrap_or("").chars().collect();
+            let toks = f.tokens(&chars, chars.len(), chars.len());
+            let mut ro = Vec::new();
+            let rv = codec_spec(f.codec).decode(&chars, &mut ro);
+            println!("reference: {:?} octets {}", rv.map_err(|w| w.s()), hex(&ro));
+            for (pos, layout) in FE_VARIANTS_ALL {
+                let zone = fe_zone_text(f, ro.len(), &toks, pos, layout);
+                println!("zone file {:?}\n  -> {:?}", zone, guard(|| fe_read_zonefile(&zone, pos)).map(|r| (r.rec.map(|(t, d)| (t, hex(&d))), r.around)));
+            }
+            check_front_text(f, &chars, 3, &FE_VARIANTS_ALL, &mut l);
+        } else if let Some(form) = case["form"].as_str() {
             let octets = case["section"].as_str() == Some("nsec3-octets");
             let chars: Vec<char> = case["text"].as_str().unwrap_or("").chars().collect();
             let data = unhex(case["octets"].as_str().unwrap_or(""));
@@ -2256,15 +2856,25 @@ fn main() {
     let (th, oh) = run_forms::<FHash>(&an3, &cls_hash, n3len, n3oct);
     space.insert("nsec3_text_forms".into(), json!({"entry_points": "Nsec3Salt / OwnerHash: FromStr, scan (IterScanner), serde Deserialize; from_octets, Display, serde Serialize", "salt_classes": cls_salt.iter().collect::<String>(), "hash_classes": cls_hash.iter().collect::<String>(), "max_len": n3len, "class_texts": [ts, th], "octet_lengths": format!("every length 0..={n3oct} x 3 fill patterns (limit is 255)"), "octet_strings": [os, oh]}));
 
+    // the front ends: fields of complete records read by the real readers
+    let afe = Agg { inner: Mutex::new(Local::new()), stats: stats.clone() };
+    let fe_cov = run_front_ends(&afe, &wd, quick);
+    space.insert("front_ends".into(), fe_cov);
+
     // ---- report -------------------------------------------------------
+    let lfe = afe.inner.into_inner().unwrap();
     let ln3 = an3.inner.into_inner().unwrap();
     let l64 = a64.inner.into_inner().unwrap();
     let l32 = a32.inner.into_inner().unwrap();
     let l16 = a16.inner.into_inner().unwrap();
     let mut evals = 0u64;
-    for l in [&l64, &l32, &l16, &ln3] {
+    for l in [&l64, &l32, &l16, &ln3, &lfe] {
         report(&ctx, l);
         evals += EVAL_COUNTERS.iter().map(|&i| l.c[i]).sum::<u64>();
+    }
+    if lfe.c[C_FE_ACC] == 0 || lfe.c[C_FE_REJ] == 0 || lfe.c[C_FE_ECH] == 0 || lfe.c[C_FE_ITER] == 0 || lfe.c[C_FE_NEIGHBOUR] == 0 {
+        eprintln!("MACHINERY: front ends: accept / reject / a reader never reached");
+        std::process::exit(2);
     }
     if ln3.c[C_N3_LONG] == 0 || ln3.c[C_N3_ACC] == 0 || ln3.c[C_N3_REJ] == 0 {
         eprintln!("MACHINERY: nsec3 text forms: accept / reject / over-length case never reached");
@@ -2290,14 +2900,15 @@ fn main() {
         json!({
             "evaluations": evals,
             "distinct_nontrivial": stats.distinct_count(),
-            "rule": "distinct (codec,text) whose reference verdict is 'well-formed with >= 1 octet' plus distinct non-empty (codec,octet string) of the encode space (the all-3-octet-strings sweep of the thorough tier is left out of this set to bound memory; it is counted in octet_strings_encoded); hashed with FNV-1a",
+            "rule": "distinct (codec,text) whose reference verdict is 'well-formed with >= 1 octet' plus distinct non-empty (codec,octet string) of the encode space plus distinct (record field, well-formed canonical non-empty text) of the front-end part (the all-3-octet-strings sweep of the thorough tier is left out of this set to bound memory; it is counted in octet_strings_encoded); hashed with FNV-1a",
             "exhaustive": true,
-            "evaluations_are": "calls of a subject entry point: decode, one Decoder push..finalize sequence, one SymbolConverter run (direct / IterScanner::convert_entry / convert_token), one encode function call",
+            "evaluations_are": "calls of a subject entry point: decode, one Decoder push..finalize sequence, one SymbolConverter run (direct / IterScanner::convert_entry / convert_token), one encode function call, one zone file / record data / ech value read by a front end",
             "space": space,
             "base64": codec_json(&l64),
             "base32hex": codec_json(&l32),
             "base16": codec_json(&l16),
             "nsec3": codec_json(&ln3),
+            "front_ends": codec_json(&lfe),
             "samples": stats.samples(),
         }),
         &[
@@ -2310,6 +2921,7 @@ fn main() {
             "bounded-buffer (Array<2>) runs are an extension beyond the property's input quantifier; they share the root cause of the known push panic",
             "escaped symbols (\\X, \\DDD) on the scanner routes: a malformed escape and a text whose escapes resolve to non-well-formed codec text must be rejected; a well-formed text written with escapes MAY be refused (neither RFC 4648 nor the modules define escapes) but if accepted must give the reference octets, and library-parsed and harness-parsed symbol routes must agree",
             "NSEC3 text forms: a text is valid iff it is the codec's well-formed text of at most 255 octets (salt: or exactly \"-\"); the empty string (not a possible token) may be taken either way by FromStr/Deserialize",
+            "front ends: the expected record is written out as wire-format RDATA from the RFC layouts with the reference decoding in the field; the empty text in a field may be refused (whether a key or digest may be empty is the record type's rule) except RFC 3597 '\\# 0' and the NSEC3 salt '-'; a '\\# <len>' line for malformed text declares the number of whole octets the symbols would carry; ZoneRecordData::scan over an IterScanner is not used for the RFC 3597 form (UnknownRecordData::scan is) nor for SvcParams (IterScanner does not implement scan_svcb_octets)",
             "serde helpers are exercised through serde_json only (human-readable side: a JSON string); the binary (non-human-readable) side is raw octets and involves no codec",
             "not covered because it is not codec behaviour: Debug/Display of the error types, accessors/Eq/Ord/Hash/compose/parse of Nsec3/Nsec3param/Nsec3Salt/OwnerHash, ZonefileFmt, the integer/name/charstr scanning functions of base/scan.rs; octets types SmallVec/heapless are not reachable without adding crates to the harness (Vec, Bytes and Array cover the growable, shared and fixed builders)",
         ],
